@@ -191,6 +191,23 @@ def substitute_function(fn) -> int:
                                                                                                for t_ in x.targets for y in ast.walk(t_))), None)
                     if dst is not None and (dst.lineno, dst.col_offset) < (st.lineno, st.col_offset):
                         single_before.add(f)
+            # a loop variable of the loop the alias lives in: re-bound once per iteration, together with the alias
+            for f in free:
+                if "." in f or f in single_before:
+                    continue
+                lp = getattr(st, "_parent", None)
+                while lp is not None and lp is not fn:
+                    if isinstance(lp, (ast.For, ast.AsyncFor)) and any(isinstance(x, ast.Name) and x.id == f for x in ast.walk(lp.target)):
+                        break
+                    lp = getattr(lp, "_parent", None)
+                if lp is None or lp is fn:
+                    continue
+                other_stores = [x for x in _own_nodes(fn) if isinstance(x, ast.Name) and x.id == f and isinstance(x.ctx, (ast.Store, ast.Del))
+                                and not any(x is y for y in ast.walk(lp.target))]
+                inside = {id(x) for x in ast.walk(lp)}
+                alias_uses_inside = all(id(x) in inside for x in _own_nodes(fn) if isinstance(x, ast.Name) and x.id == name)
+                if not other_stores and alias_uses_inside:
+                    single_before.add(f)
             # the same for an attribute path set up once earlier in the function (self.records = []; members = self.records)
             for f in free:
                 if "." in f:
